@@ -56,6 +56,36 @@ def _mkdtemp(suffix=None, prefix=None, dir=None):
     return kernel.cur().world.new_sandbox(prefix or 'tmp')
 
 
+def _rmdir_racing_with_stragglers(real_rmdir):
+    """An interleaving the simulator decides: a child process that nobody has stopped (behaviour 'straggler': it keeps
+    creating files in its current directory) gets to run just before that directory is removed - the removal then
+    fails with ENOTEMPTY, as it does when a real sandbox is removed under a process that is still writing into it.
+    A child that was killed, terminated or reaped does nothing."""
+
+    def rmdir(path, *args, dir_fd=None, **kw):
+        sim = kernel.cur()
+        if sim is not None and any(ch.is_running_straggler() for ch in sim.children):
+            try:
+                full = os.fspath(path)
+                if dir_fd is not None:
+                    full = os.path.join(os.readlink('/proc/self/fd/%d' % dir_fd), full)
+                full = os.path.realpath(full)
+                for ch in sim.children:
+                    if ch.is_running_straggler() and os.path.realpath(ch.rec['cwd']) == full:
+                        with open(os.path.join(full, 'written-by-a-child-that-is-still-running'), 'w'):
+                            pass
+                        sim.counts['straggler_wrote'] += 1
+                        sim.ev('straggler_write', tag=ch.tag, dir=sim.world.norm(full))
+                        break
+            except OSError:
+                pass
+        if dir_fd is None:
+            return real_rmdir(path, *args, **kw)
+        return real_rmdir(path, *args, dir_fd=dir_fd, **kw)
+
+    return rmdir
+
+
 @contextlib.contextmanager
 def installed(sim: kernel.Sim):
     import importlib
@@ -85,9 +115,12 @@ def installed(sim: kernel.Sim):
             m.platform = types.SimpleNamespace(node=lambda: 'simhost')
     if sim.fsfaults:
         fsfaults.install()
+    real_rmdir = os.rmdir
+    os.rmdir = _rmdir_racing_with_stragglers(real_rmdir)
     try:
         yield sim
     finally:
+        os.rmdir = real_rmdir
         if sim.fsfaults:
             fsfaults.uninstall()
         for m, attr, val in saved_mod:
